@@ -39,6 +39,9 @@ def run_property(prop, tier):
         fault = "ANCHOR-MISSING: %s" % e
     except extract.ExtractionError as e:
         fault = "EXTRACTION-FAILED: %s" % e
+    except Exception as e:  # noqa: BLE001  -- an analyser bug is a checker fault, never a property violation
+        import traceback
+        fault = "CHECKER-FAULT: %s: %s\n%s" % (type(e).__name__, e, traceback.format_exc()[-1500:])
 
     known = load_known()
     known_keys = {}
